@@ -209,6 +209,9 @@ def main():
             first.setdefault(v['key'], v)
         for k, n in sorted(cnt.items()):
             print('CANDIDATE x{} {} :: {}'.format(n, k, first[k]['what'][:300]))
+        if os.environ.get('VERIF_DUMP'):
+            with open(os.environ['VERIF_DUMP'], 'w') as f:
+                json.dump([first[k] for k in sorted(first)], f, indent=1)
         cands = []
     for v in cands:
         if v['key'] in seen_keys:
